@@ -535,7 +535,9 @@ def r6_total_operations(chk: Check) -> None:
                     lookup = bool(caught & {"LookupError", "Exception", "BaseException"})
                     # a registered codec can still refuse the job: `idna` / `undefined` / `punycode` raise UnicodeError
                     # (a ValueError) for arbitrary bytes even with errors="replace"
-                    unicode_ = bool(caught & {"UnicodeError", "ValueError", "Exception", "BaseException"})
+                    # codecs.lookup raises a plain ValueError for a charset name with an embedded NUL (`charset=utf-8\x00` survives
+                    # requests); UnicodeError is a subclass, so ValueError (or wider) is what covers both
+                    unicode_ = bool(caught & {"ValueError", "Exception", "BaseException"})
                     if lookup and unicode_:
                         chk.ok("C16.R6", fn, construct, f"guarded against {sorted(caught)}", fn.loc(c))
                     elif lookup:
@@ -566,7 +568,7 @@ def r6_total_operations(chk: Check) -> None:
               tries = [t for t in ancestors(a) if isinstance(t, ast.Try) and any(is_within(a, s_) for s_ in t.body)]
               caught = {cl.rsplit(".", 1)[-1] for t in tries for h in t.handlers for cl in handler_classes(h)}
               lookup = bool(caught & {"LookupError", "Exception", "BaseException"})
-              unicode_ = bool(caught & {"UnicodeError", "ValueError", "Exception", "BaseException"})
+              unicode_ = bool(caught & {"ValueError", "Exception", "BaseException"})
               construct = f"{unparse(a)} while formatting a failure"
               if lookup and unicode_:
                   chk.ok("C16.R6", ff, construct, f"guarded against {sorted(caught)}", ff.loc(a))
